@@ -143,6 +143,14 @@ def model_xml(m, rng):
                 parts.append('<decisionService name="s%d" id="ds%d"><variable name="s%d"%s/><outputDecision href="#du%d"/></decisionService>' % (j, j, j, tref_attr(r), j))
                 parts.append(invoker_xml('is%d' % j, 'ds%d' % j, invocation_xml('s%d' % j, [])))
                 parts.append(invoker_xml('fs%d' % j, 'ds%d' % j, '<literalExpression><text>s%d()</text></literalExpression>' % j))
+                if v is not None and v[0] == 'c' and len(v[1]) >= 2:
+                    # ... and on a decision service with SEVERAL output decisions, one per entry of the value (their variables are named like the entries): the
+                    # service's result is the context of their values, coerced to the declared type like every other result (seeded change C11_k)
+                    for kk, x in v[1]:
+                        parts.append('<decision name="mu%d%s" id="dmu%d%s"><variable name="%s"/><literalExpression><text>%s</text></literalExpression></decision>'
+                                     % (j, KEYS[kk], j, KEYS[kk], KEYS[kk], esc(lit(x))))
+                    parts.append('<decisionService name="m%d" id="dm%d"><variable name="m%d"%s/>%s</decisionService>'
+                                 % (j, j, j, tref_attr(r), ''.join('<outputDecision href="#dmu%d%s"/>' % (j, KEYS[kk]) for kk, _ in v[1])))
             j += 1
     parts.append('</definitions>')
     return ''.join(parts)
@@ -614,6 +622,9 @@ def run_models(ctx, models, tagbase='c'):
                     for pre, kind in (('is', 'out-svc-boxed-invocation'), ('fs', 'out-svc-feel-call')):
                         calls.append(['%s%d' % (pre, j), '{}'])
                         idx.append((kind, j, r, v))
+                    if v is not None and v[0] == 'c' and len(v[1]) >= 2:
+                        calls.append(['m%d' % j, '{}'])
+                        idx.append(('out-svc-several-outputs', j, r, v))
                 j += 1
         reqs.append({'xml': xmls[mi], 'calls': calls})
         index.append(idx)
